@@ -76,7 +76,9 @@ CLAIMED = {
          'Theorems (closed under the global context): the agenda loop credits exactly the word synset and its ancestors, once each, '
          'and terminates on cyclic graphs; closed forms of every synset weight and class total (conservation, unknown words '
          'ignored; with distributed weights and one class, total = smoothing + sum of the counts; corpus order irrelevant); monotone up the taxonomy; the root of a single-rooted class weighs the class total (probability 1, information content 0); probability in (0,1]; information content non-negative and antitone for any '
-         'antitone -log. ic.load and the satellite-adjective folding are decided by the oracle on the implementation.',
+         'antitone -log; ic.load: a synset gets the weight of the last line naming it (0 when none), a class total is the sum of its '
+         'ROOT lines (model load_entry, tied to wn.ic.load by the run_load correspondence). The satellite-adjective folding and '
+         'the tokenisation of weight-file lines are decided by the oracle on the implementation.',
          'Trusted: Coq kernel + vm_compute; floats modelled as exact rationals (generator restricted to exactly representable '
          'sums, checked with Fraction); math.log abstract; wordnet.synsets(word) is a model input checked by the oracle.',
          'DESIGN.md section 5, C15'),
